@@ -515,19 +515,67 @@ func c05R7(w *World, r *Report) {
 	}
 }
 
+// deliveries lists everything in fn that can hand a value to one of the
+// channels of its `channels` parameter: calls of the blocking helpers
+// (sendOptionalWithContext / sendWithContext) and raw sends (plain or in a select).
+type deliveryOp struct {
+	in       ssa.Instruction
+	ch       ssa.Value
+	val      ssa.Value
+	blocking bool // a call of one of the context-bounded blocking helpers
+}
+
+func deliveries(w *World, fn *ssa.Function) []deliveryOp {
+	var out []deliveryOp
+	eachInstr(fn, func(in ssa.Instruction) {
+		switch x := in.(type) {
+		case *ssa.Call:
+			if w.isCallTo(&x.Call, "sendOptionalWithContext", "sendWithContext") && len(x.Call.Args) == 3 {
+				out = append(out, deliveryOp{in, x.Call.Args[1], x.Call.Args[2], true})
+			}
+		case *ssa.Send:
+			out = append(out, deliveryOp{in, x.Chan, x.X, false})
+		case *ssa.Select:
+			for _, st := range x.States {
+				if st.Dir == types.SendOnly {
+					out = append(out, deliveryOp{in, st.Chan, st.Send, false})
+				}
+			}
+		}
+	})
+	return out
+}
+
+// channelsElemIndex: v is channels[i] (possibly through a type change) for the
+// function's `channels` parameter; returns i.
+func channelsElemIndex(w *World, v ssa.Value) ssa.Value {
+	if ct, ok := v.(*ssa.ChangeType); ok {
+		v = ct.X
+	}
+	u, ok := v.(*ssa.UnOp)
+	if !ok {
+		return nil
+	}
+	ia, ok := u.X.(*ssa.IndexAddr)
+	if !ok || w.path(ia.X) != "p:channels" {
+		return nil
+	}
+	return ia.Index
+}
+
 func c05R8(w *World, r *Report) {
 	const rule = "C05.R8"
-	r.rule(rule, "sendToChannelsWithContext attempts every waiter: its delivery loop has a single exit, the exhaustion of the range", 1)
+	r.rule(rule, "sendToChannelsWithContext attempts every waiter: one delivery per element through a context-bounded blocking helper, in a loop over the whole slice whose only exit is exhaustion", 1)
 	for _, fn := range w.fnsByBase("sendToChannelsWithContext") {
-		sites := w.callSitesIn(fn, "sendOptionalWithContext")
-		if len(sites) != 1 {
-			r.undecided(rule, w.name(fn)+":loop", w.pos(fn.Pos()), fmt.Sprintf("expected one delivery call, found %d", len(sites)))
+		ops := deliveries(w, fn)
+		if len(ops) != 1 || !ops[0].blocking {
+			r.bad(rule, w.name(fn)+":loop", w.pos(fn.Pos()), fmt.Sprintf("expected exactly one delivery per waiter through sendOptionalWithContext/sendWithContext, found %d delivery operation(s) (raw or non-blocking sends included): a waiter can be answered twice, skipped, or answered out of turn", len(ops)))
 			continue
 		}
-		body := sites[0].Block()
-		scc := loopOf(body)
+		site := ops[0].in
+		scc := loopOf(site.Block())
 		if len(scc) < 2 {
-			r.bad(rule, w.name(fn)+":loop", w.instrPos(sites[0]), "the delivery call is not inside a loop over the waiters")
+			r.bad(rule, w.name(fn)+":loop", w.instrPos(site), "the delivery call is not inside a loop over the waiters")
 			continue
 		}
 		var exits []*ssa.BasicBlock
@@ -540,10 +588,8 @@ func c05R8(w *World, r *Report) {
 		}
 		header := loopHeader(scc)
 		ok := len(exits) == 1 && exits[0] == header
-		r.check(ok, rule, w.name(fn)+":loop-exits", w.instrPos(sites[0]), "single exit at the loop header", fmt.Sprintf("the delivery loop has %d exit(s) besides range exhaustion: a failed send to one waiter would leave the rest unanswered", len(exits)))
-		// the value sent is the parameter, the channel is the range element
-		c := callOf(sites[0])
-		r.check(w.path(c.Args[2]) == "p:value", rule, w.name(fn)+":value", w.instrPos(sites[0]), "every waiter receives the given value", "waiters receive "+w.path(c.Args[2])+" instead of the given value")
+		r.check(ok, rule, w.name(fn)+":loop-exits", w.instrPos(site), "single exit at the loop header", fmt.Sprintf("the delivery loop has %d exit(s) besides range exhaustion: a failed send to one waiter would leave the rest unanswered", len(exits)))
+		r.check(w.path(ops[0].val) == "p:value", rule, w.name(fn)+":value", w.instrPos(site), "every waiter receives the given value", "waiters receive "+w.path(ops[0].val)+" instead of the given value")
 	}
 }
 
